@@ -22,6 +22,11 @@ type Case struct {
 	Target  string    `json:"target"`  // for null tests: "col", "path", "func"
 	Texts   []gen.Val `json:"texts"`
 	Bare    bool      `json:"bare,omitempty"` // force the contexts excluded by open findings (witness cases)
+	// Combo (kind "combo"): `x LIKE p <Conj> y IS [NOT] NULL` (or the other way round) over a second column y
+	Conj      string `json:"conj,omitempty"`
+	NotNull   bool   `json:"not_null,omitempty"`
+	NullFirst bool   `json:"null_first,omitempty"`
+	YNull     []bool `json:"y_null,omitempty"` // per text: is y NULL in that row
 }
 
 var alphabet = []string{"%", "_", "a", "b", ".", "*", "(", "[", "+", "?", "^", "$", "é", " "}
@@ -83,8 +88,40 @@ func matching(p string) string {
 	return strings.NewReplacer("%", "", "_", "a").Replace(p)
 }
 
+func genCombo(t *rapid.T) Case {
+	c := Case{Kind: "combo", Conj: rapid.SampledFrom([]string{"AND", "OR"}).Draw(t, "conj"), NotNull: rapid.Bool().Draw(t, "notnull"), NullFirst: rapid.Bool().Draw(t, "nullfirst")}
+	c.Pattern = genStr(t, "p", 3) + "%" + genStr(t, "q", 3)
+	if pbt.Open("C13", "space-pattern") {
+		c.Pattern = strings.ReplaceAll(c.Pattern, " ", "b")
+	}
+	nt := rapid.IntRange(2, 8).Draw(t, "nt")
+	for i := 0; i < nt; i++ {
+		if rapid.Bool().Draw(t, "match") {
+			var sb strings.Builder
+			for _, r := range c.Pattern {
+				switch r {
+				case '%':
+					sb.WriteString(genStr(t, "exp", 3))
+				case '_':
+					sb.WriteString(rapid.SampledFrom(alpha()).Draw(t, "one"))
+				default:
+					sb.WriteRune(r)
+				}
+			}
+			c.Texts = append(c.Texts, gen.Str(sb.String()))
+		} else {
+			c.Texts = append(c.Texts, gen.Str(genStr(t, "t", 6)))
+		}
+		c.YNull = append(c.YNull, rapid.Bool().Draw(t, "ynull"))
+	}
+	return c
+}
+
 func genCase(t *rapid.T) Case {
 	k := rapid.IntRange(0, 9).Draw(t, "kind")
+	if rapid.IntRange(0, 6).Draw(t, "combo") == 3 {
+		return genCombo(t)
+	}
 	if k < 7 {
 		c := Case{Kind: "like"}
 		switch rapid.IntRange(0, 7).Draw(t, "shape") {
@@ -169,6 +206,16 @@ func pred(c Case) string {
 	switch c.Kind {
 	case "like":
 		return "x LIKE '" + c.Pattern + "'"
+	case "combo":
+		like := "x LIKE '" + c.Pattern + "'"
+		nt := "y IS NULL"
+		if c.NotNull {
+			nt = "y IS NOT NULL"
+		}
+		if c.NullFirst {
+			return nt + " " + c.Conj + " " + like
+		}
+		return like + " " + c.Conj + " " + nt
 	}
 	var tgt string
 	switch c.Target {
@@ -198,13 +245,34 @@ func rowOf(c Case, v gen.Val, id int) map[string]any {
 	if !v.IsMissing() {
 		r["x"] = v.Go()
 	}
+	if c.Kind == "combo" {
+		if id >= 0 && id < len(c.YNull) && !c.YNull[id] {
+			r["y"] = 1
+		} else if id == 9999 {
+			// sentinel: satisfy the NULL test
+			if c.NotNull {
+				r["y"] = 1
+			}
+		}
+	}
 	return r
 }
 
 // expected truth; known=false when the property does not fix the answer (non-string text under LIKE,
 // upper() of a non-string)
-func expected(c Case, v gen.Val) (want bool, known bool) {
+func expected(c Case, v gen.Val, idx ...int) (want bool, known bool) {
 	switch c.Kind {
+	case "combo":
+		like := v.K == "str" && likeRe(c.Pattern).MatchString(v.S)
+		yNull := len(idx) > 0 && idx[0] >= 0 && idx[0] < len(c.YNull) && c.YNull[idx[0]]
+		nt := yNull
+		if c.NotNull {
+			nt = !yNull
+		}
+		if c.Conj == "AND" {
+			return like && nt, true
+		}
+		return like || nt, true
 	case "like":
 		if v.IsNull() {
 			return false, true
@@ -270,6 +338,10 @@ func contexts(c Case) []ctx {
 				return truthy(r["r"])
 			}}
 	}
+	if c.Kind == "combo" && pbt.Open("C06", "sql-ops-bridge") && !c.Bare {
+		// AND/OR inside a SELECT item is not lowered for the bridge evaluator (finding F-C06-SQLOPS)
+		return cs
+	}
 	cs = append(cs, sel("select", "("+p+")"))
 	if !pbt.Open("C13", "select-bare-bool") || c.Bare {
 		cs = append(cs, sel("selectbare", p))
@@ -283,6 +355,9 @@ func havingSQL(c Case) string {
 		return "" // HAVING works on output columns; nested path is not an output column
 	case "func":
 		return ""
+	}
+	if c.Kind == "combo" {
+		return "SELECT last_value(x) AS x, last_value(y) AS y, max(id) AS id FROM stream GROUP BY CountingWindow(1) HAVING " + pred(c)
 	}
 	return "SELECT last_value(x) AS x, max(id) AS id FROM stream GROUP BY CountingWindow(1) HAVING " + pred(c)
 }
@@ -310,7 +385,7 @@ func runCase(c Case) (res pbt.Result) {
 			continue
 		}
 		for i, v := range c.Texts {
-			want, known := expected(c, v)
+			want, known := expected(c, v, i)
 			var out map[string]any
 			var eerr error
 			func() {
@@ -360,7 +435,7 @@ func runCase(c Case) (res pbt.Result) {
 			wantIDs := map[int]bool{}
 			n := 0
 			for i, v := range c.Texts {
-				want, known := expected(c, v)
+				want, known := expected(c, v, i)
 				if !known {
 					continue
 				}
@@ -373,7 +448,7 @@ func runCase(c Case) (res pbt.Result) {
 			}
 			var sv gen.Val
 			switch c.Kind {
-			case "like":
+			case "like", "combo":
 				sv = gen.Str(matching(c.Pattern))
 			case "isnull":
 				sv = gen.Nil()
@@ -402,7 +477,7 @@ func runCase(c Case) (res pbt.Result) {
 				}
 			}
 			for i, v := range c.Texts {
-				if _, known := expected(c, v); !known {
+				if _, known := expected(c, v, i); !known {
 					continue
 				}
 				if got[i] != wantIDs[i] {
@@ -433,6 +508,9 @@ func runCase(c Case) (res pbt.Result) {
 			res.Class("empty-pattern")
 		}
 		res.NonTrivial = inner || wildText
+	} else if c.Kind == "combo" {
+		res.Class("combo-like-and-null-test")
+		res.NonTrivial = true
 	} else {
 		res.Class("null-test-" + c.Target)
 		hasNull, hasVal := false, false
